@@ -104,6 +104,10 @@ func vfRunVerifyCase(t testing.TB, cs *vfVCase, r *vfRand) {
 				}
 				inst.ServeHTTP(httptest.NewRecorder(), req)
 			}
+		case "peer":
+			// another application of the same provider, running in the same process, is shown the token (a token issued to
+			// some-other-client is ITS token): whatever it concludes is its business and changes nothing here
+			w.peerInstance().VerifyToken(strs[st.Tok])
 		case "revoke":
 			now := time.Since(w.base).Nanoseconds() + shift
 			inst.RevokeToken(strs[st.Tok])
@@ -177,6 +181,10 @@ func vfGenVerifyCase(r *vfRand, id int) *vfVCase {
 		case x < 7:
 			cs.Steps = append(cs.Steps, vfVStep{Op: "revoke", Tok: k}, vfVStep{Op: "verify", Tok: k})
 		case x < 8:
+			if r.chance(1, 2) {
+				cs.Steps = append(cs.Steps, vfVStep{Op: "peer", Tok: k}, vfVStep{Op: "verify", Tok: k})
+				break
+			}
 			cs.Steps = append(cs.Steps, vfVStep{Op: "session", Tok: k}, vfVStep{Op: "verify", Tok: k})
 		case x == 8 && robust && shifted < 90:
 			h := int64([]int{1, 23, 25, 30}[r.intn(4)])
@@ -214,8 +222,14 @@ func vfVerifyCorpus() []*vfVCase {
 	held := &vfVCase{Kind: "corpus", Toks: []vfVTok{{Kind: "minted", Spec: &rv2}, {Kind: "minted", Spec: &rv3}},
 		Steps: []vfVStep{{Op: "verify", Tok: 0}, {Op: "revoke", Tok: 0}, {Op: "verify", Tok: 0}, {Op: "session", Tok: 0}, {Op: "verify", Tok: 0},
 			{Op: "session", Tok: 1}, {Op: "verify", Tok: 1}, {Op: "revoke", Tok: 1}, {Op: "session", Tok: 1}, {Op: "session", Tok: 1}, {Op: "verify", Tok: 1}}}
+	// two applications of one provider in one process: each one's tokens are the other's wrong-audience tokens, whoever sees them first
+	theirs := vfTokSpec{Sub: "peer-user", Email: "p@example.com", ExpIn: 3600, IatIn: -5, WrongAud: true, Jti: "jti-corpus-peer"}
+	mine := vfTokSpec{Sub: "my-user", Email: "u@example.com", ExpIn: 3600, IatIn: -5}
+	peers := &vfVCase{Kind: "corpus", Toks: []vfVTok{{Kind: "minted", Spec: &theirs}, {Kind: "minted", Spec: &mine}},
+		Steps: []vfVStep{{Op: "peer", Tok: 0}, {Op: "verify", Tok: 0}, {Op: "verify", Tok: 1}, {Op: "peer", Tok: 1}, {Op: "verify", Tok: 1},
+			{Op: "revoke", Tok: 1}, {Op: "peer", Tok: 1}, {Op: "verify", Tok: 1}, {Op: "peer", Tok: 0}, {Op: "verify", Tok: 0}}}
 	return []*vfVCase{
-		crowd, held,
+		crowd, held, peers,
 		{Kind: "corpus", Toks: []vfVTok{{Kind: "minted", Spec: &edge}, {Kind: "minted", Spec: &edgeJ}},
 			Steps: []vfVStep{{Op: "verify", Tok: 0}, {Op: "verify", Tok: 1}, {Op: "verify", Tok: 0}, {Op: "sleep", Ms: 4300},
 				{Op: "verify", Tok: 0}, {Op: "verify", Tok: 1}, {Op: "verify", Tok: 0}}},
